@@ -605,3 +605,71 @@ func VHDistinctLarge() {
 		vCover("distinct long: > 16 distinct values with repeats")
 	}
 }
+
+// VHFilterLong: Filter, Except and ExceptSet on inputs of 63..300 elements (around the 64- and
+// 256-element boundaries a word- or block-wise implementation would have) with several keep
+// patterns: runs that start in the middle of a block and cross its end, alternating elements,
+// everything, nothing, only the last.
+func VHFilterLong() {
+	lens := []int{63, 64, 65, 70, 100, 127, 128, 129, 200, 256, 257, 300}
+	n := lens[vChoose("len", len(lens))]
+	if n > vParam("FMAX") {
+		n = vParam("FMAX")
+	}
+	off := vInt("off")
+	vAssume(vAnd(off >= -1000000, off <= 1000000))
+	pat := vChoose("pattern", 7)
+	keep := func(i int) bool {
+		switch pat {
+		case 0:
+			return i >= 10
+		case 1:
+			return i%2 == 0
+		case 2:
+			return true
+		case 3:
+			return false
+		case 4:
+			return i == n-1
+		case 5:
+			return i >= 60 && i < 70 || i >= 120 && i < 135
+		}
+		return i%64 != 0 // everything but the first element of each block
+	}
+	s := make([]int, n)
+	for i := range s {
+		s[i] = i + off
+	}
+	var want, excl []int
+	for i := 0; i < n; i++ {
+		if keep(i) {
+			want = append(want, i+off)
+		} else {
+			excl = append(excl, i+off)
+		}
+	}
+	which := vChoose("which", 3)
+	var got []int
+	switch which {
+	case 0:
+		calls := 0
+		got = Filter(s, func(v int) bool { calls++; return keep(v - off) })
+		vAssert(calls == n, "Filter (long): the predicate is evaluated once per element")
+	case 1:
+		got = Except(s, excl)
+	case 2:
+		got = ExceptSet(s, maps.NewSetFromSlice(excl))
+	}
+	vAssert(len(got) == len(want), "Filter/Except (long): exactly the kept elements")
+	for i := range want {
+		if i < len(got) {
+			vAssert(got[i] == want[i], "Filter/Except (long): kept elements in original order")
+		}
+	}
+	for i := range s {
+		vAssert(s[i] == i+off, "Filter/Except (long): the input is not modified")
+	}
+	if n >= 128 {
+		vCover("filter long: >= 128 elements")
+	}
+}
